@@ -68,6 +68,13 @@ def generate(rng, tier):
         c["recontact"] = True
         c["answers2"] = rng.choice(["n\n", "n\n", "no\n", "maybe\nn\n", "y\n", ""])
         cases.append(c)
+    # the client shuts down while unknown hosts are still being collected for the prompt: nobody approved them
+    for i in range(3 if tier == "quick" else 40):
+        c = dict(rng.choice(base))
+        c["answers"] = ""
+        c["trust_all"] = False
+        c["cancel_after_ms"] = rng.choice([200, 700, 1500])
+        cases.append(c)
     cases.append({"e2e": "n"})
     cases.append({"e2e": "y"})
     return cases
@@ -142,6 +149,16 @@ def judge(cases, obs, tier):
         before, after = bytes.fromhex(o["before"]), bytes.fromhex(o["after"])
         answers = c["answers"].split("\n")[:-1] if c["answers"] else []
         status = c["_status"]
+        if c.get("cancel_after_ms"):
+            for k, ct in enumerate(c["contacts"]):
+                st = status[str(ct["key"])]
+                got = o["results"][k].split(":")[0]
+                if (st == "known") != (got == "proceed"):
+                    oracle[i] = "client shut down %d ms after contacting %s (%s key, nothing answered at the prompt): client %s" % (c["cancel_after_ms"], ct["server"], st, got)
+                    break
+            if i not in oracle and after != before:
+                oracle[i] = "known-hosts file changed although no host was newly trusted (client shut down before the prompt)"
+            continue
         need = [k for k, ct in enumerate(c["contacts"]) if status[str(ct["key"])] != "known"]
         d = decide(c["trust_all"], answers) if need else None
         for k, ct in enumerate(c["contacts"]):
